@@ -159,6 +159,31 @@ impl Read for FailAfter {
     }
 }
 
+/// A minimal loadable sprite (1x1 RGBA, one empty frame), written as `<stem>.ase` next to every
+/// temporary `<stem>.aseprite` handed to `read_file`: what a path-based load returns must come from
+/// the named file only.
+pub(crate) fn sibling_sprite() -> Vec<u8> {
+    let mut h = vec![0u8; 128];
+    h[4] = 0xE0;
+    h[5] = 0xA5;
+    h[6] = 1; // frames
+    h[8] = 1; // width
+    h[10] = 1; // height
+    h[12] = 32; // depth
+    h[14] = 1; // flags
+    h[18] = 100; // speed
+    h.extend_from_slice(&[16, 0, 0, 0, 0xFA, 0xF1, 0, 0, 100, 0, 0, 0, 0, 0, 0, 0]);
+    h
+}
+
+pub(crate) fn with_sibling<T>(path: &std::path::Path, f: impl FnOnce() -> T) -> T {
+    let sib = path.with_extension("ase");
+    let _ = std::fs::write(&sib, sibling_sprite());
+    let r = f();
+    let _ = std::fs::remove_file(&sib);
+    r
+}
+
 fn print_result(out: &mut impl Write, r: Option<asefile::Result<AsepriteFile>>, len: usize) {
     match r {
         None => writeln!(out, "load panic").unwrap(),
@@ -207,7 +232,7 @@ pub fn handle(parts: &[&str], out: &mut impl Write) {
                     parts[1].replace('/', "_")
                 ));
                 std::fs::write(&path, &bytes).unwrap();
-                let r = crate::guard(|| AsepriteFile::read_file(&path));
+                let r = with_sibling(&path, || crate::guard(|| AsepriteFile::read_file(&path)));
                 let _ = std::fs::remove_file(&path);
                 // a failing file-backed load must carry the same error value as loading the same
                 // bytes from memory does (compared through the Debug text of the source)
@@ -465,7 +490,7 @@ fn history_files(parts: &[&str], out: &mut impl Write) {
     std::fs::write(&pb, &b).unwrap();
     let blen = b.len();
     let load_b = move |pb: &std::path::Path| -> Vec<String> {
-        match crate::guard(|| AsepriteFile::read_file(pb)) {
+        match with_sibling(pb, || crate::guard(|| AsepriteFile::read_file(pb))) {
             None => vec!["load panic".to_string()],
             Some(Err(e)) => vec![format!("load err {}", crate::err_name(&e))],
             Some(Ok(ase)) => {
